@@ -10,12 +10,14 @@ import (
 	"fmt"
 	"hash/fnv"
 	"math/rand"
+	"encoding/hex"
 	"reflect"
 	"strings"
 	"time"
 
 	auth "github.com/pokt-network/posmint/x/auth"
 
+	posCrypto "github.com/pokt-network/posmint/crypto"
 	sdk "github.com/pokt-network/posmint/types"
 	authTypes "github.com/pokt-network/posmint/x/auth/types"
 	govTypes "github.com/pokt-network/posmint/x/gov/types"
@@ -109,6 +111,12 @@ func (f *Fam) genWire(r *rand.Rand) string {
 			}
 		}
 		return "mon.cointext " + strings.Join(p, ",")
+	}
+	if r.Intn(10) == 0 { // a public key from JSON: payloads of the right and of other lengths
+		n := []int{32, 32, 33, 0, 1, 31, 34, 64, 20}[r.Intn(9)]
+		b := make([]byte, n)
+		r.Read(b)
+		return fmt.Sprintf("mon.pubkeyjson %s %s", []string{"ed25519", "secp256k1"}[r.Intn(2)], hx(b))
 	}
 	if r.Intn(8) == 0 { // the text form of a decimal coin, well formed and not
 		num := []string{"0.5", "1.000000000000000000", ".5", "5.", "0.0000000000000000001", "123456789.123456789012345678",
@@ -318,6 +326,32 @@ func (f *Fam) execWire(op string, w []string, fail func(string, string, string))
 		var si2 posTypes.ValidatorSigningInfo
 		if err := cdc.UnmarshalBinaryLengthPrefixed(sbz, &si2); err != nil || !reflect.DeepEqual(normSI(si), normSI(si2)) {
 			fail("roundtrip", "C20:signing-info-roundtrip", fmt.Sprintf("%s: %+v -> %+v (%v)", op, si, si2, err))
+		}
+		return "done"
+	case "mon.pubkeyjson": // a public key decoded from JSON is refused or re-encodes to the text it was decoded from
+		raw := unhx(w[2])
+		txt := []byte("\"" + hex.EncodeToString(raw) + "\"")
+		var back []byte
+		var derr, eerr error
+		if p := try(func() string {
+			if w[1] == "ed25519" {
+				var pk posCrypto.Ed25519PublicKey
+				if derr = pk.UnmarshalJSON(txt); derr == nil {
+					back, eerr = pk.MarshalJSON()
+				}
+			} else {
+				var pk posCrypto.Secp256k1PublicKey
+				if derr = pk.UnmarshalJSON(txt); derr == nil {
+					back, eerr = pk.MarshalJSON()
+				}
+			}
+			return ""
+		}); p != "" {
+			fail("no-crash", "C20:pubkey-json-panic", fmt.Sprintf("%s: decoding %s panicked", op, txt))
+			return "done"
+		}
+		if derr == nil && (eerr != nil || !bytes.Equal(back, txt)) {
+			fail("roundtrip", "C20:pubkey-json-accepts-malformed", fmt.Sprintf("%s: %s (%d bytes) is accepted as a %s public key and re-encodes as %s (%v)", op, txt, len(raw), w[1], back, eerr))
 		}
 		return "done"
 	case "mon.deccointext": // ParseDecCoin / ParseDecCoins: an error or a value, never a panic; what parses prints and parses back
